@@ -136,9 +136,25 @@ func checkC13(w *World, r *Report) {
 			preds[w.Info.Defs[fd.Name].(*types.Func)] = true
 		}
 	}
+	// predicates the parser side asks (a predicate that only the whitespace pass of the tokenizer
+	// uses — "is this one of the trimming kinds" — is about the dash, not about accepting a tag)
+	askedByParser := map[*types.Func]bool{}
+	for _, fd := range w.sortedDecls() {
+		if !w.parserSide(fd) || fd.Body == nil {
+			continue
+		}
+		ast.Inspect(fd.Body, func(n ast.Node) bool {
+			if c, ok := n.(*ast.CallExpr); ok {
+				if f := w.callee(c); f != nil && preds[f] {
+					askedByParser[f] = true
+				}
+			}
+			return true
+		})
+	}
 	for _, fd := range w.sortedDecls() {
 		obj := w.Info.Defs[fd.Name].(*types.Func)
-		if !w.parserSide(fd) && !preds[obj] {
+		if !w.parserSide(fd) && !(preds[obj] && askedByParser[obj]) {
 			continue
 		}
 		fname := w.declName(fd)
@@ -493,11 +509,52 @@ func checkR13_2(w *World, r *Report, kt *kindTable) {
 				}
 				return false
 			}
+			// a loop that calls the (per-token) pass in its body has run the pass when it is left
+			// through its head — also when there was nothing to visit
+			loopOf := func(h *ssa.BasicBlock) map[*ssa.BasicBlock]bool {
+				body := map[*ssa.BasicBlock]bool{}
+				var stack []*ssa.BasicBlock
+				for _, p := range h.Preds {
+					if h.Dominates(p) && !body[p] {
+						body[p] = true
+						stack = append(stack, p)
+					}
+				}
+				if len(stack) == 0 {
+					return nil
+				}
+				body[h] = true
+				for len(stack) > 0 {
+					b := stack[len(stack)-1]
+					stack = stack[:len(stack)-1]
+					for _, p := range b.Preds {
+						if !body[p] {
+							body[p] = true
+							stack = append(stack, p)
+						}
+					}
+				}
+				return body
+			}
+			edgeGen := func(b *ssa.BasicBlock, i int) bool {
+				body := loopOf(b)
+				if body == nil || body[b.Succs[i]] {
+					return false
+				}
+				for blk := range body {
+					for _, in := range blk.Instrs {
+						if gen(in) {
+							return true
+						}
+					}
+				}
+				return false
+			}
 			all, nret := true, 0
 			instrsOf(fn, func(in ssa.Instruction) {
 				if _, ok := in.(*ssa.Return); ok {
 					nret++
-					if bad, _ := existsPathAvoiding(fn, in, gen, nil); bad {
+					if bad, _ := existsPathAvoiding(fn, in, gen, edgeGen); bad {
 						all = false
 					}
 				}
@@ -645,6 +702,15 @@ func constOffset(w *World, e ast.Expr) (int, bool) {
 func kindsTested(w *World, kt *kindTable, cond ast.Expr) []string {
 	var out []string
 	ast.Inspect(cond, func(n ast.Node) bool {
+		// a kind predicate of the package: the kinds its single return expression tests
+		if c, ok := n.(*ast.CallExpr); ok {
+			if f := w.callee(c); f != nil {
+				if fd := w.decl(f); fd != nil && w.kindPredicate(fd, kt) {
+					out = append(out, kindsTested(w, kt, fd.Body.List[0].(*ast.ReturnStmt).Results[0])...)
+					return false
+				}
+			}
+		}
 		if be, ok := n.(*ast.BinaryExpr); ok && be.Op == token.EQL {
 			if k := kt.kindOf(w, be.Y); k != nil {
 				out = append(out, kt.name[k])
@@ -1067,6 +1133,17 @@ func (w *World) scanTrimHelper(fd *ast.FuncDecl) (dir string, cut string, ok boo
 			for _, a := range x.Common().Args {
 				if isByteOfS(a) {
 					nTests++
+					// a byte predicate of the package: the bytes it accepts, by evaluating it
+					if g := x.Common().StaticCallee(); g != nil && isTwigFn(g) && len(x.Common().Args) == 1 {
+						if tab := bytePredTable(g); tab != nil {
+							for bv := 0; bv < 256; bv++ {
+								if tab[bv] {
+									set[rune(bv)] = true
+								}
+							}
+							continue
+						}
+					}
 					name := "a function"
 					if f := calleeFunc(x); f != nil {
 						name = f.FullName()
